@@ -215,3 +215,46 @@ pub broadcast proof fn lemma_flat_first<K: FlatLit>(s: Seq<K>)
 {
     if s.len() > 0 { assert(s[0] == s[0]); }
 }
+
+// ---------------------------------------------------------------- emptiness of the structured kinds
+// Decided by list_is_empty / dnf_mapping_is_empty / dnf_map_is_empty (bdd.rs, dnf.rs, mapping.rs),
+// which are NOT verified here: ASSUMED (this is the unproved part of C05). They are modelled as
+// functions of the diagram and of the atom tables of the context ("Defs"), which they leave unchanged;
+// that the memo tables do not influence the answer is part of the assumption.
+pub ghost struct Defs { pub id: int }
+pub uninterp spec fn ctx_defs(ctx: SemTypeContext) -> Defs;
+pub uninterp spec fn list_empty(b: Bdd, defs: Defs) -> bool;
+pub uninterp spec fn mapping_empty(b: Bdd, defs: Defs) -> bool;
+pub uninterp spec fn map_empty(b: Bdd, defs: Defs) -> bool;
+
+#[verifier::external_body]
+fn dnf_mapping_is_empty(bdd: &Rc<Bdd>, ctx: &mut SemTypeContext) -> (r: Result<IsEmptyStatus>)
+    ensures ctx_defs(*final(ctx)) == ctx_defs(*old(ctx)),
+            r is Ok ==> (r->Ok_0 == IsEmptyStatus::IsEmpty) == mapping_empty(**bdd, ctx_defs(*old(ctx))),
+{ unimplemented!() }
+#[verifier::external_body]
+fn dnf_map_is_empty(bdd: &Rc<Bdd>, ctx: &mut SemTypeContext) -> (r: Result<IsEmptyStatus>)
+    ensures ctx_defs(*final(ctx)) == ctx_defs(*old(ctx)),
+            r is Ok ==> (r->Ok_0 == IsEmptyStatus::IsEmpty) == map_empty(**bdd, ctx_defs(*old(ctx))),
+{ unimplemented!() }
+#[verifier::external_body]
+fn list_is_empty(bdd: &Rc<Bdd>, builder: &mut SemTypeContext) -> (r: Result<IsEmptyStatus>)
+    ensures ctx_defs(*final(builder)) == ctx_defs(*old(builder)),
+            r is Ok ==> (r->Ok_0 == IsEmptyStatus::IsEmpty) == list_empty(**bdd, ctx_defs(*old(builder))),
+{ unimplemented!() }
+
+pub open spec fn proper_empty(p: ProperSubtype, defs: Defs) -> bool {
+    match p {
+        ProperSubtype::Mapping(b) => mapping_empty(*b, defs),
+        ProperSubtype::List(b) => list_empty(*b, defs),
+        ProperSubtype::Map(b) => map_empty(*b, defs),
+        ProperSubtype::Set(b) => list_empty(*b, defs),
+        _ => false,
+    }
+}
+
+pub open spec fn all_tags() -> Seq<SubTypeTag> {
+    seq![SubTypeTag::String, SubTypeTag::Boolean, SubTypeTag::Number, SubTypeTag::OptionalProp, SubTypeTag::Null,
+         SubTypeTag::Mapping, SubTypeTag::List, SubTypeTag::BigInt, SubTypeTag::Date, SubTypeTag::VoidUndefined,
+         SubTypeTag::TypedArray, SubTypeTag::Map, SubTypeTag::Set]
+}
